@@ -234,10 +234,12 @@ class Fn:
             return "slice.PushLast %s %s" % (self.atom(a), self.atom(b)), sl(ta), call("slice.PushLast", xa, xb)
         if o in ("map", "applyf"):
             fs = [x for x in self.funparams if x not in self.applied]
+            if (not fs or rng.random() < 0.4) and self.funparams:
+                fs = sorted(self.funparams)          # applied (or passed) again: both uses constrain the same function type
             if not fs:
                 return self.expr(d - 1, want)
             f = rng.choice(fs)
-            self.applied.add(f)                      # a function-typed parameter is applied (or passed) once
+            self.applied.add(f)
             if f in self.unused:
                 self.unused.remove(f)
             a, ta, xa = E()
